@@ -116,7 +116,7 @@ class SOb:
         c = self.cfg
         return A.spec_text(self.n, self.g['T'], self.g['binary'], self.g['unary'], self.g['roots'], nbest=c.get('nbest', 1),
                            pruning=c.get('pruning', self.g['T']), use_beta=c.get('use_beta', False), beta=c.get('beta', 0.5),
-                           max_step=c.get('max_step', 100000), penalty=c.get('penalty', 'sym'), below=self.below, checks=checks,
+                           max_step=c.get('max_step', 100000), penalty=c.get('penalty', 'sym'), below=self.below, checks=checks, flat=c.get('flat', ()), lo=c.get('lo'),
                            records=records, record_every=record_every)
 
     def job(self, model):
